@@ -118,8 +118,11 @@ def fault_wire(fs_calls, fault):
 
 
 def snap_list(snap):
+    info = getattr(snap, "_stat_info", None)
+    if info is None:              # EmptyDirectorySnapshot: no baseline was taken (compares unequal to the model's snapshot)
+        return [["<no baseline>"]]
     return [[c09.pb(p).hex(), st.st_ino, st.st_dev, int(statmod.S_ISDIR(st.st_mode)), st.st_mtime, st.st_size]
-            for p, st in snap._stat_info.items()]
+            for p, st in info.items()]
 
 
 def model_snap(o):
